@@ -135,7 +135,7 @@ def Stmt.okTop2 (all : List String) (te : C.TyEnv) : Stmt → Option C.TyEnv
   | s => if s.okNested all te then some te else none
 
 def InF2 (p : Prog) : Bool :=
-  let all := p.pre.assigned ++ (match p.body with | some b => b.assigned | none => [])
+  let all := p.pre.assigned ++ (match p.body with | some b => b.assigned | none => []) ++ p.helpers.flatMap (·.body.assigned)
   match p.pre.okTop2 all [] with
   | none => false
   | some te => match p.body with
